@@ -145,6 +145,25 @@ def _gen(rng):
             data[yv] = [(c2 - 1.0 if i in blips else c2 + rng.choice([0.5, 1.5])) for i in range(n)]   # q false at a few isolated samples
         rnd = [[rng.choice(sg.LATTICE) for _ in range(n * nv)] for _ in range(nc)]
         modular = {'key': json.dumps(ast), 'defs': [['p1', p_]], 'subs': ['p1 = %s;' % sg.to_text(p_)], 'top': 'out = ' + sg.to_text(top) + ';'}
+    if rng.random() < 0.06:
+        # directed: an edge operator over a composite operand below nested quantifiers, on signals that toggle (edges at time 0
+        # and later, every interval essential)
+        n = rng.randint(5, 9)
+        xv, yv = rng.choice(vars_), rng.choice(vars_)
+        c1, c2 = rng.choice([1.0, 2.0, 3.0]), rng.choice([1.0, 2.0, 3.0])
+        p_, q_ = ['pred', '>=', ['var', xv], ['const', c1]], ['pred', '>=', ['var', yv], ['const', c2]]
+        edge = [rng.choice(['rise', 'fall']), [rng.choice(['or', 'and']), p_, q_]]
+        if rng.random() < 0.7:
+            edge = ['not', edge]
+        inner = rng.choice([['always_b', 0, 1, edge], ['historically_b', 0, 1, edge], edge])
+        ast = rng.choice([['eventually_b', 0, n - 2, inner], ['eventually', inner], ['not', ['always_b', 0, n - 2, ['not', inner]]]])
+        ph = rng.randint(0, 1)
+        data = dict((v, [0.0] * n) for v in vars_)
+        data[xv] = [(c1 + 1.0 if (i + ph) % 2 == 0 else c1 - 3.0) for i in range(n)]
+        if yv != xv:
+            data[yv] = [(c2 + 1.0 if (i + ph + rng.randint(0, 1)) % 2 == 0 else c2 - 3.0) for i in range(n)]
+        rnd = [[rng.choice(sg.LATTICE) for _ in range(n * nv)] for _ in range(nc)]
+        modular = None
     warm = None
     if rng.random() < 0.2:
         nw = n if (rng.random() < 0.5 and n <= 12) else rng.randint(1, 8)
